@@ -17,9 +17,9 @@ ASSIGNS(*p)
 ENSURES(RESULT >= -1 && RESULT <= 255)
 ENSURES(RESULT >= 0 || *p == NULL);
 
-/* writes nothing but the output stream (here: the ghost capture), in particular not the array being dumped */
-int hex_dump_to_file(FILE *f, unsigned char *p, size_t sz)
-ASSIGNS(__CPROVER_object_whole(g_text), g_len, g_lost);
+/* hex_dump_to_file / hex_dump carry no DFCC contract here: a redeclaration would pin their parameter types, and an
+ * API-compatible change of the prototype (say to const void *) must reach the checks instead of failing to compile.
+ * Their frame - the dumped array is left unchanged - is an obligation of the harness (C18_hex.c, check_format). */
 
 #endif
 #endif
